@@ -593,6 +593,7 @@ type parseObs struct {
 	viaParse string
 	node     parsley.Node
 	perr     error
+	viaParseFull string
 	rec      *recorder
 	rec2     *recorder
 	calls    int
@@ -653,6 +654,31 @@ func runParseCase(c *Sexp, budget int, custom customInterp, res []string) (obs p
 		msg = hexs(perr.Error())
 	}
 	obs.viaParse = fmt.Sprintf("node=%s;msg=%s;calls=%d", renderNode(node), msg, ctx2.CallCount())
+	// a third time through parsley.Parse with the optional passes enabled (Transform, StaticCheck): none of the
+	// harness's interpreters is a NodeTransformer, so the outcome must be the same — this exercises the glue of
+	// parse.go that the model does not contain (the passes themselves are C13's subject)
+	func() {
+		defer func() {
+			if r := recover(); r != nil {
+				if _, ok := r.(budgetExceeded); ok {
+					panic(r)
+				}
+				obs.viaParseFull = fmt.Sprintf("panic=%v", r)
+			}
+		}()
+		rec3 := newRecorder(budget)
+		g3 := buildGrammar(findArg(c, "env"), findArg(c, "root")[0], rec3, true, custom, res)
+		ctx3, tf3 := newCtx(files, target)
+		rec3.end = int(tf3.Pos(tf3.Len()))
+		ctx3.EnableTransformation()
+		ctx3.EnableStaticCheck()
+		n3, e3 := parsley.Parse(ctx3, g3.root)
+		m3 := "-"
+		if e3 != nil {
+			m3 = hexs(e3.Error())
+		}
+		obs.viaParseFull = fmt.Sprintf("node=%s;msg=%s;calls=%d", renderNode(n3), m3, ctx3.CallCount())
+	}()
 	return obs
 }
 
